@@ -7,6 +7,7 @@ import numpy as np
 import z3
 
 from vlib import loader
+from checks import objarr
 from checks.objarr import Sym, sym, NPProxy, differs, rq
 
 PID = 'C15'
@@ -21,11 +22,11 @@ EXPLANATION = (
     'output dtype is the input dtype, and that the input array is left untouched. Solver over values, enumeration over shapes.')
 BOUNDS = {
     'quick': 'rank 1-3, extents 0-4 (incl. singleton and empty non-filtered axes), every axis / target_axis / time_axis value incl. negatives, '
-             'num_deltas 0-2, context_window 1-2, pad modes edge/constant/reflect/symmetric/linear_ramp, num_vectors 1-4, pad_mode None/edge/constant/wrap/symmetric/reflect, float32/float64: '
+             'num_deltas 0-2, context_window 1-2, pad modes edge/constant/reflect/symmetric/linear_ramp/mean, num_vectors 1-4, pad_mode None/edge/constant/wrap/symmetric/reflect, float32/float64 (Deltas with edge/linear_ramp/mean also int16): '
              'seeded covering sample of the grid (about 700 configurations)',
     'thorough': 'rank 1-4, extents 0-5, num_deltas 0-3, context_window 1-3: about 6000 configurations',
 }
-OUTSIDE = ['extents beyond the bound', 'integer dtypes (rounding of the cast back)', 'floating-point round-off (tolerant comparison 1e-9 over [-1,1]^n)']
+OUTSIDE = ['extents beyond the bound', 'the rounding of the final cast back to an integer dtype (values are compared before that cast; the rounding np.pad applies to fill values it computes in an integer dtype is modelled as PADROUND_<dtype>)', 'integer dtypes for Stack', 'floating-point round-off (tolerant comparison 1e-9 over [-1,1]^n)']
 ASSUMPTIONS = ['np.correlate(a, v, "full")[k] = sum_j a[j] v[j-k+m-1] (NumPy definition, used to evaluate the correlation on terms)',
                'np.pad on object arrays moves elements exactly as on numeric arrays (it is the same NumPy code)']
 CONFIG_TIME_LIMIT = {'quick': 600, 'thorough': 3000}
@@ -86,6 +87,13 @@ def spec_deltas(x, axis, num_deltas, W, mode, target_axis, concatenate):
             t = idx[ax]
             s = z3.RealVal(0)
             for j in range(-half, half + 1):
+                if mode == 'mean' and not (0 <= t + j < n):
+                    # np.pad(..., 'mean'): the mean of the whole vector along the axis
+                    mu = z3.RealVal(0)
+                    for q_ in range(n):
+                        mu = mu + rq(xo[idx[:ax] + (q_,) + idx[ax + 1:]])
+                    s = s + rq(sc[j + half]) * (mu / z3.RealVal(n))
+                    continue
                 if mode == 'linear_ramp' and not (0 <= t + j < n):
                     # np.pad(..., half, 'linear_ramp'): the ramp runs from 0 (end value) to the edge sample over the pad
                     # width, which for delta order k is k * context_window
@@ -165,8 +173,10 @@ def delta_grid(tier, seed):
                     for ta in tr:
                         for nd_ in ((0, 1, 2) if tier == 'quick' else (0, 1, 2, 3)):
                             for W in ((1, 2) if tier == 'quick' else (1, 2, 3)):
-                                for mode in ('edge', 'constant', 'reflect', 'symmetric', 'linear_ramp'):
-                                    for ld in ('f8', 'f4'):
+                                for mode in ('edge', 'constant', 'reflect', 'symmetric', 'linear_ramp', 'mean'):
+                                    # integer features: the regression is still computed in float64 (also the edge
+                                    # extension), only the result is cast back
+                                    for ld in (('f8', 'f4', 'i2') if mode in ('edge', 'linear_ramp', 'mean') else ('f8', 'f4')):
                                         full.append(dict(op='deltas', shape=shape, axis=axis, target_axis=ta, concatenate=conc_,
                                                          num_deltas=nd_, W=W, mode=mode, ld=ld))
     want = 420 if tier == 'quick' else 4000
@@ -177,6 +187,14 @@ def delta_grid(tier, seed):
     for c in full:
         if key(c) not in seen and c['num_deltas'] >= 1:
             seen.add(key(c))
+            chosen.append(c)
+    cnt = {}
+    for c in chosen:
+        cnt[(c['mode'], c['ld'])] = cnt.get((c['mode'], c['ld']), 0) + 1
+    for c in full:      # every (pad mode, dtype) pair at least 4 times with a filtered block
+        k2 = (c['mode'], c['ld'])
+        if cnt.get(k2, 0) < 4 and c['num_deltas'] >= 1 and c not in chosen:
+            cnt[k2] = cnt.get(k2, 0) + 1
             chosen.append(c)
     for c in full:
         if len(chosen) >= want:
@@ -270,6 +288,7 @@ def run_config(cfg):
     ns = load()
     viol, samples = [], []
     ob = dis = 0
+    q0, s0 = objarr.STATS['queries'], objarr.STATS['solver_s']
     for c in cfg['items']:
         ob += 1
         w = check_one(ns, c)
@@ -286,7 +305,8 @@ def run_config(cfg):
                 T = c['shape'][c['time_axis'] % len(c['shape'])]
                 w['class'] = 'stack/%s/pad=%s/rem0=%s/rank%d' % (w['what'].split()[0], c['pad_mode'], T % c['V'] == 0, len(c['shape']))
             viol.append(w)
-    return dict(obligations=ob, discharged=dis, violations=viol, samples=samples, twin=dis > 0, paths=ob, branches=ob)
+    return dict(obligations=ob, discharged=dis, violations=viol, samples=samples, twin=dis > 0, paths=ob, branches=ob,
+                queries=objarr.STATS['queries'] - q0, solver_s=objarr.STATS['solver_s'] - s0)
 
 
 def replay(w):
@@ -294,6 +314,8 @@ def replay(w):
     rng = np.random.RandomState(4)
     shape = tuple(w['shape'])
     ld = np.dtype(w['ld'])
+    if ld.kind in 'iu':
+        return _replay_int(w, ld)
     xv = (rng.randn(*shape) if np.prod(shape) else np.zeros(shape)).astype(ld)
     xs = sym(shape)
     # evaluate the specification numerically through the same spec code, substituting values
@@ -327,6 +349,43 @@ def replay(w):
     if not np.array_equal(xv, orig):
         return {'reproduced': True, 'detail': 'input modified'}
     return {'reproduced': False, 'detail': 'real post-processor matches (max diff %.3g)' % d}
+
+
+def _replay_int(w, ld):
+    """integer features: the documented value is the float64 regression (edge extension included) cast back to the
+    integer type (truncation).  Elements whose float64 value lies within 1e-6 of an integer are not compared."""
+    from pydrobert.speech.post import Deltas
+    assert w['kind'] == 'deltas'
+    shape = tuple(w['shape'])
+    xs = sym(shape)
+    want_t = spec_deltas(xs, w['axis'], w['num_deltas'], w['W'], w['mode'], w['target_axis'], w['concatenate'])
+    rng = np.random.RandomState(15)
+    for trial in range(25):
+        xv = rng.randint(-300, 300, size=shape).astype(ld)
+        sub = [(t, rq(int(v))) for t, v in zip(xs.raw().ravel(), xv.ravel())]
+        orig = xv.copy()
+        xv.setflags(write=False)
+        try:
+            got = Deltas(w['num_deltas'], target_axis=w['target_axis'], concatenate=w['concatenate'], context_window=w['W'], pad_mode=w['mode']).apply(xv, axis=w['axis'])
+        except Exception as e:
+            return {'reproduced': True, 'detail': 'real deltas raised %s: %s' % (type(e).__name__, e)}
+        if tuple(got.shape) != tuple(want_t.shape):
+            return {'reproduced': True, 'detail': 'deltas: real shape %s, documented %s' % (got.shape, want_t.shape)}
+        if got.dtype != ld:
+            return {'reproduced': True, 'detail': 'real dtype %s, input %s' % (got.dtype, ld)}
+        for idx in np.ndindex(*want_t.shape):
+            t = want_t[idx]
+            v = z3.simplify(z3.substitute(t, *sub)) if isinstance(t, z3.ExprRef) else rq(t)
+            f = v.as_fraction()
+            if abs(f - round(f)) < Fraction(1, 10 ** 6):
+                continue
+            exp = int(f)      # truncation toward zero, the float64 -> integer cast
+            if int(got[idx]) != exp:
+                return {'reproduced': True, 'detail': 'deltas %s on %s data %s: element %s is %d, the float64 regression cast to %s gives %d (%.6f)' % (
+                    {k: v_ for k, v_ in w.items() if k not in ('class', 'what', 'kind', 'shape', 'ld')}, ld, xv.tolist(), idx, int(got[idx]), ld, exp, float(f))}
+        if not np.array_equal(xv, orig):
+            return {'reproduced': True, 'detail': 'input modified'}
+    return {'reproduced': False, 'detail': 'real Deltas matches the float64 regression cast back on 25 integer arrays'}
 
 
 def conformance(tier, seed, results):
